@@ -122,7 +122,7 @@ impl NbfRef {
     }
 }
 
-//@unit props=C11 label=B tier=quick native=1 fn=blowfish::Blowfish::{new,encrypt,decrypt,pad_buffer} bound="by execution: 33 published ECB test vectors (Eric Young's set, 8-byte keys); 6 keys of 8..56 bytes x every message length 0..=200 against a textbook implementation"
+//@unit props=C11 label=B tier=quick native=1 fn=blowfish::Blowfish::{new,encrypt,decrypt,pad_buffer} bound="by execution: 33 published ECB test vectors (Eric Young's set, 8-byte keys); 6 keys of 8..56 bytes x every message length 0..=200 (ascending) and 64..=0 (descending, interleaved with longer calls, one instance per key) against a textbook implementation"
 //@desc encrypt pads with zeros to a multiple of 8, takes each block as two little-endian words, applies standard Blowfish (key schedule over the first 8 key bytes) and emits two little-endian words per block in order; decrypt inverts it; the published vectors hold
 #[test]
 fn native_blowfish_messages() {
@@ -157,6 +157,14 @@ fn native_blowfish_messages() {
             let mut back = vec![];
             for b in got.chunks(8) { let (l, r) = rf.dec(u32::from_le_bytes(b[0..4].try_into().unwrap()), u32::from_le_bytes(b[4..8].try_into().unwrap())); back.extend_from_slice(&l.to_le_bytes()); back.extend_from_slice(&r.to_le_bytes()); }
             assert!(back == padded, "the reference decrypts it too");
+            cases += 1;
+        }
+        // the result is a function of (key, message) only: one instance used for messages of DEcreasing length, with decryptions in between, gives what a fresh instance gives
+        for n in (0..=64usize).rev() {
+            let msg: Vec<u8> = (0..n).map(|i| (i * 29 + ki * 11 + n + 1) as u8).collect();
+            let fresh = Blowfish::new(key).encrypt(&msg).expect("encrypt");
+            assert!(bf.encrypt(&msg).expect("encrypt") == fresh, "key {ki}, {n}-byte message after longer ones on the same instance: same ciphertext as on a fresh instance");
+            if n % 3 == 0 { let long = vec![0xA5u8; 72]; let _ = bf.decrypt(&long); let _ = bf.encrypt(&long[..61]); }
             cases += 1;
         }
     }
